@@ -97,4 +97,17 @@ theorem entered_rename {ρ : Cst → Cst} {ops : List Op} {c : Cst} (h : entered
   · rcases hc with h | h <;> subst h <;> simp
   · rcases hc with h | h | h <;> subst h <;> simp
 
+/-- Inclusion of equation sets up to the orientation of the constant equations. -/
+theorem Cl.mono_sym {E E' : Eqn → Prop} (hc : ∀ a b, E (.c a b) → E' (.c a b) ∨ E' (.c b a))
+    (hf : ∀ a1 a2 a, E (.f a1 a2 a) → E' (.f a1 a2 a)) {a b : Cst} (c : Cl E a b) : Cl E' a b := by
+  induction c with
+  | base e =>
+    rcases hc _ _ e with h | h
+    · exact .base h
+    · exact .symm (.base h)
+  | refl a => exact .refl a
+  | symm _ ih => exact .symm ih
+  | trans _ _ ih1 ih2 => exact .trans ih1 ih2
+  | cong e1 e2 _ _ ih1 ih2 => exact .cong (hf _ _ _ e1) (hf _ _ _ e2) ih1 ih2
+
 end Holpy.C17
